@@ -117,6 +117,10 @@ def selftest(ctx):
         silent += 1
         ctx.ob("SELFTEST", "benign|%s" % name, True, os.path.relpath(bp, VERIF),
                "behaviour-preserving refactor %s leaves this check silent" % name)
+    # the scratch build cache of this self-test is large (a few GB per property) and nothing in
+    # it is needed again: extracted facts live on in the shared pool
+    import shutil
+    shutil.rmtree(os.path.join(VERIF, ".cache", "selftest-%s" % ctx.prop), ignore_errors=True)
     ctx.count("SELFTEST", "seeded changes that fired", fired)
     ctx.count("SELFTEST", "benign patches silent", silent)
     ctx.count("SELFTEST", "patches skipped", skipped)
